@@ -283,6 +283,21 @@ class Engine(object):
             return False
         return True
 
+    def known(self, st, cond):
+        """True / False if the condition (or its negation) is literally a conjunct of the path condition, else None.
+        Used to keep specification terms small: a spec-level `if flag:` on a path that already branched on the same flag."""
+        if cond.lit is not None:
+            return cond.lit[1]
+        atoms = getattr(st, '_atoms', None)
+        if atoms is None or atoms[0] != len(st.pc):
+            atoms = (len(st.pc), set(h.s for h in st.pc))
+            st._atoms = atoms
+        if cond.s in atoms[1]:
+            return True
+        if Not(cond).s in atoms[1]:
+            return False
+        return None
+
     def fork_on(self, st, cond):
         """Split the path on a Bool term; returns [(True, st1), (False, st2)] (feasible ones)."""
         if cond.lit is not None:
@@ -811,8 +826,9 @@ class Engine(object):
                 continue
             cond = self.truthy(c, s)
             if self.pure:
-                if cond.lit is not None:
-                    out.append((self.ev1(node.body if cond.lit[1] else node.orelse, s), s))
+                kn = self.known(s, cond)
+                if kn is not None:
+                    out.append((self.ev1(node.body if kn else node.orelse, s), s))
                     continue
                 a = self.ev1(node.body, s)
                 b = self.ev1(node.orelse, s)
